@@ -69,6 +69,7 @@ func (k *Keygen) Run(
 	ctx, k.Cancel = context.WithCancel(ctx)
 
 	k.storer.LockKeyshare()
+	defer k.storer.UnlockKeyshare()
 	parties := common.PartiesFromPeers(k.Host.Peerstore().Peers())
 	k.PopulatePartyStore(parties)
 
@@ -104,10 +105,10 @@ func (k *Keygen) Run(
 	return p.Wait()
 }
 
-// Stop ends all subscriptions created when starting the tss process and unlocks keyshare.
+// Stop ends all subscriptions created when starting the tss process.
+// The keyshare lock is taken and released by Run, so a keygen that never started has nothing to unlock.
 func (k *Keygen) Stop() {
 	k.Communication.UnSubscribe(k.subscriptionID)
-	k.storer.UnlockKeyshare()
 	k.Cancel()
 }
 
